@@ -277,14 +277,19 @@ func c16FinalGen(c *gen.Ctx) {
 	}
 	// the operation is ended early — by the request side or by the client going away — before
 	// the response starts, after it started, with and without trailers set afterwards
-	for _, waiter := range []string{"none", "late"} {
+	// (finding F28, repaired in cdc69f7: the trailers set afterwards must not reach the trace)
+	for _, waiter := range []string{"none", "late", "blocked", "gated"} {
+		gate := waiter == "gated"
+		if gate {
+			waiter = "blocked"
+		}
 		for _, end := range []string{"readErr", "closeReq", "cancel"} {
-			emit([]act{{K: end}, {K: "declare", Names: []string{"X-T"}}, {K: "w", Ok: true}, {K: "set", Key: "X-T", Val: "1"}}, waiter, false)
-			emit([]act{{K: "set", Key: "X-Plain", Val: "p"}, {K: "wh", Status: 200}, {K: end}, {K: "w", Ok: true}}, waiter, false)
-			emit([]act{{K: "declare", Names: []string{"X-T"}}, {K: "wh", Status: 200}, {K: end}}, waiter, false)
-			emit([]act{{K: "readEof"}, {K: "w", Ok: true}, {K: end}, {K: "set", Key: "X-Plain", Val: "late"}}, waiter, false)
-			emit([]act{{K: "declare", Names: []string{"X-T"}}, {K: "w", Ok: true}, {K: end}, {K: "set", Key: "X-T", Val: "1"}}, waiter, false)
-			emit([]act{{K: "w", Ok: true}, {K: end}, {K: "set", Key: "Trailer:X-P", Val: "1"}}, waiter, false)
+			emit([]act{{K: end}, {K: "declare", Names: []string{"X-T"}}, {K: "w", Ok: true}, {K: "set", Key: "X-T", Val: "1"}}, waiter, gate)
+			emit([]act{{K: "set", Key: "X-Plain", Val: "p"}, {K: "wh", Status: 200}, {K: end}, {K: "w", Ok: true}}, waiter, gate)
+			emit([]act{{K: "declare", Names: []string{"X-T"}}, {K: "wh", Status: 200}, {K: end}}, waiter, gate)
+			emit([]act{{K: "readEof"}, {K: "w", Ok: true}, {K: end}, {K: "set", Key: "X-Plain", Val: "late"}}, waiter, gate)
+			emit([]act{{K: "declare", Names: []string{"X-T"}}, {K: "w", Ok: true}, {K: end}, {K: "set", Key: "X-T", Val: "1"}}, waiter, gate)
+			emit([]act{{K: "w", Ok: true}, {K: end}, {K: "set", Key: "Trailer:X-P", Val: "1"}}, waiter, gate)
 		}
 	}
 	// random handler scripts
@@ -329,14 +334,6 @@ func c16FinalGen(c *gen.Ctx) {
 			}
 		}
 		waiter := gen.Pick(r, []string{"none", "blocked", "blocked", "late"})
-		for _, a := range acts {
-			// an operation that is ended early is written to afterwards (finding F28): a consumer
-			// that is already looking at it would race with that write, so such scripts are
-			// observed by the collector's copy and by a waiter that comes later
-			if (a.K == "readErr" || a.K == "closeReq" || a.K == "cancel") && waiter == "blocked" {
-				waiter = "late"
-			}
-		}
 		emit(acts, waiter, waiter == "blocked" && r.Bool())
 	}
 	c.E.Add("final:scripts", len(ins))
